@@ -123,7 +123,11 @@ func evaluate(src string, data val.V, opts *evalOpts) *EvalOut {
 	if !out.Panicked && out.Err == nil && (opts == nil || !opts.noMap) {
 		m2, _ := val.Build(data, &val.Env{}).(map[string]interface{})
 		if e2 := secondEvaluation(sc, src, ctx, m2, outcome(out.Val, nil, false, nil)); e2 != nil {
-			out.Val, out.Err = nil, e2
+			// unless the outcome depends on where the data lives (an address formatted into a text and then cut or
+			// replaced, so that it cannot be masked): the very same data object gives the first outcome again
+			if secondEvaluation(sc, src, ctx, out.Map, outcome(out.Val, nil, false, nil)) != nil {
+				out.Val, out.Err = nil, e2
+			}
 		}
 	}
 	return out
